@@ -52,6 +52,9 @@ func VRT(run *evid.Run, h *vrt.Harness, bound, workers int, maxDur int, fingerpr
 	if !res.Completed {
 		run.NotExhaustive(fmt.Sprintf("%s: time cap hit (bound %d)", h.Name, bound))
 	}
+	if res.Diverged > 0 {
+		run.NotExhaustive(fmt.Sprintf("%s: %d replays diverged (nondeterminism inside the code under test); their subtrees were not explored", h.Name, res.Diverged))
+	}
 	if res.Capped > 0 {
 		run.NotExhaustive(fmt.Sprintf("%s: %d executions hit the step horizon", h.Name, res.Capped))
 	}
@@ -67,7 +70,7 @@ func VRT(run *evid.Run, h *vrt.Harness, bound, workers int, maxDur int, fingerpr
 		}
 		run.Violation(fp, v)
 	}
-	run.Set("harness:"+h.Name, map[string]interface{}{"executions": res.Executions, "preemption_bound": bound, "completed": res.Completed, "outcomes": len(res.Outcomes), "deadlocks": res.Deadlocks, "max_points": res.MaxPoints, "with_deviation": res.Preempted})
+	run.Set("harness:"+h.Name, map[string]interface{}{"executions": res.Executions, "preemption_bound": bound, "completed": res.Completed, "outcomes": len(res.Outcomes), "deadlocks": res.Deadlocks, "max_points": res.MaxPoints, "with_deviation": res.Preempted, "diverged": res.Diverged, "first_divergence": res.DivergedAt})
 	return res
 }
 
